@@ -131,10 +131,11 @@ func (P) ClassifyMismatch(line, goOut, leanOut string) string {
 		if err == nil && len(outs) == 1 && outs[0] == "err:SIG_FINDANDDELETE" {
 			return "F-C06-b"
 		}
-	case goOut == "err" && leanOut == "ok" &&
+	case goOut != leanOut && (goOut == "ok" || goOut == "err") && (leanOut == "ok" || leanOut == "err") &&
 		s.flags&(txscript.ScriptVerifyDERSignatures|txscript.ScriptVerifyStrictEncoding|txscript.ScriptVerifyLowS) == 0:
 		// F-C06-d: without DERSIG, Core parses signatures with its lax DER parser; btcd's BER parser
-		// rejects some encodings that parser accepts (long-form lengths, wrong sequence length).
+		// rejects some encodings that parser accepts (long-form lengths, wrong sequence length). The
+		// signature check then gives false instead of true, which a following OP_NOT can turn either way.
 		for _, d := range spendData(s) {
 			if len(d) < 2 {
 				continue
